@@ -141,6 +141,11 @@ func runNorm(m *model.Model, s *ob.Set) {
 							}
 							continue
 						}
+						// dnorm written out: shl10VU(m, m, nlz10(top word of m))
+						if cal.Name() == "shl10VU" && st == pend0 && len(c.Args) == 3 && m.RootsOf(c.Args[0])[fmt.Sprintf("P%d.mant", k)] && isNlzOfMant(m, c.Args[2], k) {
+							st = pend1
+							continue
+						}
 						if reach[cal] != nil {
 							for ai, a := range c.Args {
 								if m.IsDecPtr(a.Type()) && reach[cal][ai] && m.RefOf(a).MayBeParam(k) && st == pend1 {
@@ -168,8 +173,29 @@ func runNorm(m *model.Model, s *ob.Set) {
 				}
 				out := step(fn.Blocks[bi], in[bi], false)
 				for _, ed := range model.LiveSuccs(fn.Blocks[bi]) {
-					if out > in[ed.To.Index] {
-						in[ed.To.Index] = out
+					o := out
+					// `if s > 0 { shift by s }` with s = nlz10(top word): on the edge where s == 0 the
+					// mantissa is normalised as it stands
+					if o == pend0 {
+						if ifi, ok := fn.Blocks[bi].Instrs[len(fn.Blocks[bi].Instrs)-1].(*ssa.If); ok {
+							if bo, ok := ifi.Cond.(*ssa.BinOp); ok && isNlzOfMant(m, bo.X, k) {
+								if z, ok := model.ConstInt(bo.Y); ok && z == 0 {
+									zeroEdge := -1
+									switch bo.Op {
+									case token.GTR, token.NEQ:
+										zeroEdge = 1
+									case token.EQL, token.LEQ:
+										zeroEdge = 0
+									}
+									if ed.Si == zeroEdge {
+										o = pend1
+									}
+								}
+							}
+						}
+					}
+					if o > in[ed.To.Index] {
+						in[ed.To.Index] = o
 						work = append(work, ed.To.Index)
 					}
 				}
@@ -298,6 +324,7 @@ func isWideInt(t types.Type) bool {
 }
 
 type expEngine struct {
+	bind   map[*ssa.Parameter]ssa.Value // helper parameter -> argument at the call being looked through
 	m      *model.Model
 	clamps map[*ssa.Function]bool
 }
@@ -418,11 +445,36 @@ func (e *expEngine) smallTerm(v ssa.Value, depth int, seen map[ssa.Value]bool) (
 		}
 		return false, "result of a call"
 	case *ssa.Parameter:
+		if b, ok := e.bind[x]; ok {
+			return e.smallTerm(b, depth-1, seen)
+		}
 		if isWideInt(x.Type()) {
 			return false, fmt.Sprintf("caller-supplied %s %s enters the sum unclamped: near the int64 limits the addition wraps before the MinExp/MaxExp test", x.Type(), x.Name())
 		}
 		return true, ""
 	case *ssa.Extract:
+		// one result of an in-package helper: every value the helper returns in that position must
+		// be a small term, with the helper's parameters standing for the arguments of this call
+		if call, ok := x.Tuple.(*ssa.Call); ok {
+			if cal := call.Call.StaticCallee(); cal != nil && m.InDecimalPkg(cal) && len(cal.Blocks) > 0 && depth > 2 {
+				if e.bind == nil {
+					e.bind = map[*ssa.Parameter]ssa.Value{}
+				}
+				for i, p := range cal.Params {
+					if i < len(call.Call.Args) {
+						e.bind[p] = call.Call.Args[i]
+					}
+				}
+				for _, b := range cal.Blocks {
+					if r, ok := b.Instrs[len(b.Instrs)-1].(*ssa.Return); ok && x.Index < len(r.Results) {
+						if ok, w := e.smallTerm(r.Results[x.Index], depth-2, seen); !ok {
+							return false, "result of " + m.FuncName(cal) + ": " + w
+						}
+					}
+				}
+				return true, ""
+			}
+		}
 		return false, "extracted value"
 	}
 	return false, fmt.Sprintf("%T", v)
@@ -672,7 +724,7 @@ func runExp(m *model.Model, s *ob.Set) {
 		}
 	}
 	if nsites < 5 {
-		model.Blind("EXP: only %d exponent sites found", nsites)
+		m.Blind("EXP: only %d exponent sites found", nsites)
 	}
 }
 
@@ -940,7 +992,7 @@ func runOverlap(m *model.Model, s *ob.Set) {
 		}
 	}
 	if nK < 4 {
-		model.Blind("OVERLAP: only %d in-place kernel sites found", nK)
+		m.Blind("OVERLAP: only %d in-place kernel sites found", nK)
 	}
 }
 
@@ -1017,7 +1069,7 @@ func runNormArg(m *model.Model, s *ob.Set) {
 		}
 	}
 	if n < 1 {
-		model.Blind("NORMARG: only %d calls of dec.cmp found", n)
+		m.Blind("NORMARG: only %d calls of dec.cmp found", n)
 	}
 }
 
@@ -1203,7 +1255,7 @@ func runInit(m *model.Model, s *ob.Set) {
 		}
 	}
 	if n < 2 {
-		model.Blind("INIT: only %d accumulating sites with a locally owned buffer found", n)
+		m.Blind("INIT: only %d accumulating sites with a locally owned buffer found", n)
 	}
 }
 
@@ -1367,7 +1419,7 @@ func runShiftDir(m *model.Model, s *ob.Set) {
 		}
 	}
 	if n < 1 {
-		model.Blind("SHIFTDIR: only %d shift counts computed as a signed difference found", n)
+		m.Blind("SHIFTDIR: only %d shift counts computed as a signed difference found", n)
 	}
 }
 
@@ -1568,7 +1620,7 @@ func runLowCut(m *model.Model, s *ob.Set) {
 		}
 	}
 	if n < 1 {
-		model.Blind("LOWCUT: no low cut of a mantissa found at all (round, GobEncode, toa expected): the rule is blind")
+		m.Blind("LOWCUT: no low cut of a mantissa found at all (round, GobEncode, toa expected): the rule is blind")
 	}
 }
 
@@ -1654,6 +1706,12 @@ func runDecNorm(m *model.Model, s *ob.Set) {
 		if !isDecFn(fn) || m.IsDecMethod(fn) {
 			continue
 		}
+		// the obligation is on the operations of the dec type (methods with a dec receiver): a plain
+		// helper that hands back a working buffer (a zero-extended dividend, scratch space) makes
+		// no promise about normalisation, and what it returns is checked where it is consumed
+		if fn.Signature.Recv() == nil || !m.IsDecNamed(fn.Signature.Recv().Type()) {
+			continue
+		}
 		name := m.FuncName(fn)
 		if why, ok := tabled[name]; ok {
 			s.Note(R, name, m.Pos(fn.Pos()), "tabled: "+why)
@@ -1686,4 +1744,26 @@ func runDecNorm(m *model.Model, s *ob.Set) {
 			s.Bad(R, name, m.Pos(fn.Pos()), "a dec-layer function may return a value with high zero words (callers compare lengths and index the top word): "+bad[0], bad[1:]...)
 		}
 	}
+}
+
+// isNlzOfMant: v is nlz10(m[len(m)-1]) for a mantissa m of parameter k (possibly through a
+// conversion): the number of leading zero digits of the top word.
+func isNlzOfMant(m *model.Model, v ssa.Value, k int) bool {
+	c, ok := stripConv(v).(*ssa.Call)
+	if !ok {
+		return false
+	}
+	cal := c.Call.StaticCallee()
+	if cal == nil || cal.Name() != "nlz10" || len(c.Call.Args) != 1 {
+		return false
+	}
+	ld, ok := stripConv(c.Call.Args[0]).(*ssa.UnOp)
+	if !ok || ld.Op != token.MUL {
+		return false
+	}
+	ia, ok := ld.X.(*ssa.IndexAddr)
+	if !ok {
+		return false
+	}
+	return m.RootsOf(ia.X)[fmt.Sprintf("P%d.mant", k)]
 }
